@@ -86,7 +86,7 @@ def install(I):
         h = I_.fresh('int', 'hour')
         m = I_.fresh('int', 'minute')
         I_.assume(z3.And(h.t >= 0, h.t < 24, m.t >= 0, m.t < 60))
-        I_.ghost.setdefault('clock_reads', []).append((h, m))
+        I_.ghost['last_h'], I_.ghost['last_m'] = h, m
         return Opaque('datetime', attrs={'hour': h, 'minute': m})
     module('datetime', datetime=Opaque('datetime_cls', methods={'now': lambda I_, o, a, k: dt_now(I_, a, k)}))
 
@@ -362,9 +362,13 @@ def install_spec(I):
     reg('sent_u32', lambda v: mk(_round_clamp(_r(v), 4294967295), 'int'))
     reg('sent_ms', lambda s: mk(_round_clamp(_r(s) * 1000, 4294967295), 'int'))
 
-    def hsv(r, g, b):
-        """textbook HSV of an rgb triple in [0,1]^3 (h as a fraction of the full turn)."""
-        r, g, b = _r(r), _r(g), _r(b)
+    # HSV of an rgb triple: uninterpreted at use sites (callers need only congruence); the textbook
+    # definition is revealed (assumed as a definitional unfolding at given arguments) where it is needed.
+    RS = z3.RealSort()
+    HSV = {n: z3.Function('HSV_' + n, RS, RS, RS, RS) for n in 'hsv'}
+
+    def hsv_def(r, g, b):
+        """textbook hexagon formulas for an rgb triple in [0,1]^3 (h as a fraction of the full turn)."""
         mx = z3.If(z3.And(r >= g, r >= b), r, z3.If(g >= b, g, b))
         mn = z3.If(z3.And(r <= g, r <= b), r, z3.If(g <= b, g, b))
         d = mx - mn
@@ -374,9 +378,14 @@ def install_spec(I):
         h = h6 / 6
         h = h - z3.ToReal(z3.ToInt(h))      # mod 1
         return h, s, mx
-    reg('hsv_h', lambda r, g, b: mk(hsv(r, g, b)[0], 'real'))
-    reg('hsv_s', lambda r, g, b: mk(hsv(r, g, b)[1], 'real'))
-    reg('hsv_v', lambda r, g, b: mk(hsv(r, g, b)[2], 'real'))
+    for i_, n_ in enumerate('hsv'):
+        reg('hsv_' + n_, lambda r, g, b, n_=n_: mk(HSV[n_](_r(r), _r(g), _r(b)), 'real'))
+
+    def reveal_hsv(r, g, b):
+        r, g, b = _r(r), _r(g), _r(b)
+        h, s_, v = hsv_def(r, g, b)
+        return mk(z3.And(HSV['h'](r, g, b) == h, HSV['s'](r, g, b) == s_, HSV['v'](r, g, b) == v), 'bool')
+    reg('reveal_hsv', reveal_hsv)
     reg('sent_frac', lambda f: mk(_round_clamp(_r(f) * 65535, 65535), 'int'))
 
 
